@@ -48,7 +48,11 @@ try:
         c = run(f"/verif/bin/govc check -prop {prop} -repo {wt} -noevidence -tier quick")
         failed = re.findall(r"FAILED (?:obligation )?(\S+)", c.stdout)
         res["check_exit"] = c.returncode; res["failed_obligations"] = failed[:12]
-        res["caught"] = c.returncode == 1 and len(failed) > 0
+        nounits = "units=0 " in c.stdout
+        if nounits: failed = []
+        res["failed_obligations"] = failed[:12]
+        res["caught"] = c.returncode == 1 and len(failed) > 0 and not nounits
+        if nounits: res["check_note"] = "property has no check (not claimed): nothing can catch this change"
         if "no such property" in c.stdout+c.stderr or (c.returncode not in (0,1)): res["check_note"] = (c.stdout+c.stderr)[-300:]
         reset()
         json.dump(res, open(d+"result.json","w"), indent=1)
